@@ -37,10 +37,17 @@ RULE = ("product explorer x horizons.  hosvd: one batch case = (data member, seq
         "asserted only on admissible runs: no eigenvalue tail within 1e-9||X||^2 of the threshold, gap lambda_r - lambda_{r+1} "
         ">= 1e-6 lambda_1 and lambda_r >= 1e-9 lambda_1 at every (reference) update up to that horizon; the others are run and "
         "counted inadmissible (a gap-less basis is decided by rounding, two calls may differ).  Non-trivial: an admissible "
-        "truncating run (some rank below the mode size) with a non-zero residual.")
+        "truncating run (some rank below the mode size) with a non-zero residual.  STORAGE DTYPE of the data tensor is a "
+        "dimension of its own: every integer-valued member is also stored under every integer dtype (int64, int32, int16, int8, "
+        "uint8) that holds its values exactly, plus per dtype one member scaled (power of two) to the full range of that dtype "
+        "(its squares / sums do not fit the dtype), plus a 0/1 member (bool storage; tucker_als with random / given start only - "
+        "unfolding a logical array is refused by tenmat, test-pinned); the denoted values and the float64 reference are the "
+        "same, all assertions above apply unchanged, and the data tensor must keep dtype and values.  float32 storage is not "
+        "enumerated (the 1e-9 identities are float64 statements; tensor.norm of float32 data is a float32 number).")
 ASSUMPTIONS = ["reference semantics in mc/refmodel.py (unfolding by explicit index formula, ttm, Tucker value) and "
                "numpy.linalg.eigh are correct; reference HOSVD cut-off / HOOI sweep in mc/props/C10.py follow the definitions",
-               "data are explicit small integers (or an exact power-of-two scaling of them); residuals are compared in the "
+               "data are explicit small integers (or an exact power-of-two scaling of them; a storage dtype is only used when "
+               "numpy casts the float64 reference values into it and back without change); residuals are compared in the "
                "squared domain scaled by ||X||^2 (1e-9 identities, 1e-8 differentials), orthonormality 1e-8 (DESIGN 4.3)",
                "ARPACK's internally random start vector (tensor.nvecs -> scipy.sparse.linalg.eigsh) is replaced by a fixed "
                "generic vector while tucker_als runs, so that cases and replays are reproducible; results are still compared "
@@ -55,12 +62,23 @@ BOUNDS = {
              "mode sizes (list / int ndarray) x verbosity {0,1,10} (1,10 on default/identity order) + N rank vectors with a 0 entry; "
              "tucker_als: 4 members (generic, exact rank (2,..,2), rank (1,..,1)+noise, counts) x (scalar ranks 1..3 + every rank "
              "vector <= 3 per mode) x init in {random seeds 0,1,2, nvecs, given list} x dimorder in {default, reversal, one rotation} "
-             "(all for N=2) x maxiters 1..3 x stoptol {0,1e-4} (printitn 0; printitn 1 at maxiters 3)",
+             "(all for N=2) x maxiters 1..3 x stoptol {0,1e-4} (printitn 0; printitn 1 at maxiters 3).  Integer storage block: "
+             "hosvd: members (generic, counts, 0/1, exact rank (2,..,2), full-range generic [signed] / counts [uint8]) x every "
+             "dtype of {int64,int32,int16,int8,uint8} holding them exactly (+ float64 control for the 0/1 and the 2^58-scaled "
+             "member) x sequential T/F x dimorder {default, reversal, one rotation} x the 7 tolerances (verbosity 0; 1 on the "
+             "default order) x rank vectors (min(r,s_n))_n, r=1..max s, and the staircase (1,2,3,1,..) + N vectors with a 0 entry "
+             "(default order); tucker_als: members (generic, counts, 0/1, full-range) x the same dtypes + bool (0/1 member, "
+             "random / given start) x ranks {1, 2, staircase} x init {random seed 0, nvecs, given list} x dimorder {default, "
+             "reversal} x maxiters 1..3 x stoptol {0,1e-4}",
     "thorough": "same shapes; hosvd: 19-20 members (+ 4 more generic, exact rank (1,..,1), mixed rank (1,2,..,2), 3 x rank (2,..,2)+noise, "
                 "single non-zero entry, 2 more graded) x the same complete configuration grid; tucker_als: 6-7 members (+ rank (2,..,2)"
                 "+noise, graded, flat for N<=3) x all ranks x 6 inits (second given list) x ALL N! dimorders for N<=3 (N=4: all 24 "
                 "orders for the generic member x {random seed 0, nvecs, list}, 6 orders otherwise) x maxiters 1..5 (N=4: 1..4) x "
-                "stoptol {0,1e-4} (printitn 1 at the last horizon)",
+                "stoptol {0,1e-4} (printitn 1 at the last horizon).  Integer storage block: hosvd: members (+ rank (1,..,1)+noise, "
+                "flat, single entry) x every exact integer dtype x the complete hosvd configuration grid (all N! dimorders + "
+                "default, every rank vector, verbosity {0,1,10}); tucker_als: members (+ exact rank (2,..,2), rank (1,..,1)+noise, "
+                "flat) x dtypes (+ bool) x ranks {1,2,3, staircase, reversed staircase} x 5 inits x dimorder {default, reversal, "
+                "one rotation} x maxiters 1..5 (N=4: 1..4) x stoptol {0,1e-4}",
 }
 CHUNK = 6
 
@@ -111,7 +129,14 @@ def _core_shape(d):
 
 
 def data_array(d):
-    """The array a data descriptor denotes."""
+    """The (float64 reference) array a data descriptor denotes.  "lg": k multiplies by 2^k (exact); "dtype" (storage
+    dtype of the real tensor, see _make_tensor) does not change the denoted values."""
+    a = _data_array(d)
+    lg = int(d.get("lg", 0))
+    return a * (2.0 ** lg) if lg else a
+
+
+def _data_array(d):
     fam = d["fam"]
     shape = tuple(d["shape"])
     n = prod(shape)
@@ -149,7 +174,84 @@ def data_array(d):
         a = np.zeros(shape)
         a[space.sub_f(shape, (n // 2 + vs) % n)] = 3.0
         return a
+    if fam == "binary":
+        # 0/1 pattern without structure (sign pattern of the generic member): the only member a bool tensor can hold
+        return rm.arr(shape, [1.0 if generic_value(l, vs + 5) > 0 else 0.0 for l in range(n)])
     raise ValueError(fam)
+
+
+# ---------------------------------------------------------------------------
+# storage dtype of the data tensor (the denoted values stay the same; the reference side is always float64)
+
+INT_DTYPES = ["int64", "int32", "int16", "int8", "uint8", "bool"]
+
+
+def fits(A, dt):
+    """dtype dt holds every entry of A exactly (decided on the reference array only)."""
+    dt = np.dtype(dt)
+    if dt.kind == "f":
+        return True
+    if not np.all(A == np.rint(A)):
+        return False
+    if dt.kind == "b":
+        return bool(np.all((A == 0) | (A == 1)))
+    info = np.iinfo(dt)
+    return bool(float(A.min()) >= info.min and float(A.max()) <= info.max and np.array_equal(A.astype(dt).astype(float), A))
+
+
+def full_range(d, dt):
+    """The member d scaled by the largest power of two that still fits dt: entries use the full range of the storage
+    dtype, so neither their squares nor their sums fit it (None if d does not fit dt at all / dt is bool)."""
+    if np.dtype(dt).kind not in "iu":
+        return None
+    A = _data_array(d)
+    if not fits(A, dt) or not A.any():
+        return None
+    lg = 0
+    while lg < 70 and fits(A * 2.0 ** (lg + 1), dt):
+        lg += 1
+    return dict(d, lg=lg) if lg else None
+
+
+def int_members(shape, tier, seed, algo):
+    """(member, integer storage dtype) pairs: every integer-valued member of the family under every integer / boolean
+    dtype that holds its values exactly, plus per dtype one member at the full range of that dtype."""
+    sh = list(shape)
+    N = len(shape)
+    gen = {"fam": "generic", "shape": sh, "vseed": seed}
+    counts = {"fam": "counts", "shape": sh, "vseed": seed}
+    binary = {"fam": "binary", "shape": sh, "vseed": seed}
+    two = {"fam": "mlrank", "shape": sh, "core": "two", "noise": 0, "vseed": seed}
+    one_n = {"fam": "mlrank", "shape": sh, "core": "one", "noise": 1, "vseed": seed}
+    flat = {"fam": "flat", "shape": sh, "vseed": seed}
+    single = {"fam": "single", "shape": sh, "vseed": seed}
+    gen3 = {"fam": "generic", "shape": sh, "vseed": seed + 3}
+    counts3 = {"fam": "counts", "shape": sh, "vseed": seed + 3}
+    base = [gen, counts, binary] + ([two] if algo == "hosvd" else [])
+    if tier == "thorough":
+        base += ([] if algo == "hosvd" else [two]) + [one_n, flat] + ([single] if algo == "hosvd" else [])
+    out = []
+    for dt in INT_DTYPES:
+        if dt == "bool" and algo == "hosvd":
+            continue        # unfolding a logical array is refused (tenmat: "must be a numeric numpy.ndarray", test-pinned)
+        ms = [m for m in base if fits(_data_array(m), dt)]
+        fr = full_range(gen3, dt) or full_range(counts3, dt)      # signed: generic; unsigned: counts
+        if fr is not None:
+            ms.append(fr)
+        out += [dict(m, dtype=dt) for m in ms]
+    # the members that exist only here also under the default float64 storage (control)
+    out.append(dict(binary, dtype="float64"))
+    out.append(dict(gen3, lg=full_range(gen3, "int64")["lg"], dtype="float64"))
+    return out
+
+
+def _diag_rank_vectors(shape):
+    """Rank vectors (min(r, s_n))_n, r = 1..max size, and the staircase (min(1 + n mod 3, s_n))_n."""
+    out = []
+    for vec in [[min(r, s) for s in shape] for r in range(1, max(shape) + 1)] + [[min(1 + (n % 3), s) for n, s in enumerate(shape)]]:
+        if vec not in out:
+            out.append(vec)
+    return out
 
 
 def members(shape, tier, seed, algo):
@@ -294,6 +396,17 @@ def gen_cases(tier, seed):
                            "tols": TOLS, "verbs": [0, 1, 10] if ident else [0],
                            "rankvecs": [] if dimorder is None else "all",
                            "mixed": bool(ident and dimorder is not None)}
+        # ---- hosvd, integer / boolean storage of the data tensor
+        few = [None] + ([perms[-1]] if N == 2 else [perms[-1], list(range(1, N)) + [0]])
+        for d in int_members(shape, tier, seed, "hosvd"):
+            for seq in (True, False):
+                for dimorder in ([None] + perms) if thorough else few:
+                    ident = dimorder is None or dimorder == list(range(N))
+                    yield {"check": "hosvd", "data": d, "shape": list(shape), "seq": seq, "dimorder": dimorder,
+                           "dform": "array" if (dimorder and dimorder[0] % 2) else "list",
+                           "tols": TOLS, "verbs": ([0, 1, 10] if thorough else [0, 1]) if ident else [0],
+                           "rankvecs": ([] if dimorder is None else "all") if thorough else _diag_rank_vectors(shape),
+                           "mixed": bool(ident and (dimorder is not None or not thorough))}
         # ---- tucker_als
         K = (5 if N <= 3 else 4) if thorough else 3
         ranks = [r for r in (1, 2, 3) if r <= min(shape)] + _rank_vectors(shape, 3)
@@ -314,6 +427,24 @@ def gen_cases(tier, seed):
                     else:
                         orders = some
                     for dimorder in orders:
+                        yield {"check": "tucker", "data": d, "shape": list(shape), "rank": rank,
+                               "rkform": "scalar" if isinstance(rank, int) else _rform(rank),
+                               "init": init, "dimorder": dimorder,
+                               "dform": "array" if (dimorder and dimorder[0] % 2) else "list",
+                               "ks": list(range(1, K + 1)), "stoptols": [0, 1e-4],
+                               "printitns": [0], "print_last": True}
+        # ---- tucker_als, integer / boolean storage of the data tensor
+        stair = [min(1 + (n % 3), s) for n, s in enumerate(shape)]
+        iranks = [r for r in ((1, 2, 3) if thorough else (1, 2)) if r <= min(shape)] + [stair] + ([stair[::-1]] if thorough and stair[::-1] != stair and all(r <= s for r, s in zip(stair[::-1], shape)) else [])
+        iinits = [{"kind": "random", "seed": 0}, {"kind": "nvecs"}, {"kind": "list", "salt": 0}]
+        if thorough:
+            iinits += [{"kind": "random", "seed": 1}, {"kind": "list", "salt": 4}]
+        for d in int_members(shape, tier, seed, "tucker"):
+            for rank in iranks:
+                for init in iinits:
+                    if d["dtype"] == "bool" and init["kind"] == "nvecs":
+                        continue        # tensor.nvecs unfolds the data: refused for a logical array (see int_members)
+                    for dimorder in (few if thorough else few[:2]):
                         yield {"check": "tucker", "data": d, "shape": list(shape), "rank": rank,
                                "rkform": "scalar" if isinstance(rank, int) else _rform(rank),
                                "init": init, "dimorder": dimorder,
@@ -358,10 +489,19 @@ class FixedArpackStart:
         return False
 
 
-def _make_tensor(A):
+def _make_tensor(A, d=None):
+    """Fresh real tensor holding the values of A, stored with the dtype of the data descriptor d (default float64)."""
     import pyttb as ttb
 
-    return ttb.tensor(np.asfortranarray(A.copy()))
+    dt = np.dtype((d or {}).get("dtype") or "float64")
+    if not fits(A, dt):
+        raise ValueError(f"harness: dtype {dt} does not hold the member {d}")
+    return ttb.tensor(np.asfortranarray(A.astype(dt)))
+
+
+def _data_unchanged(T, A, d):
+    return (T.shape == A.shape and isinstance(T.data, np.ndarray) and T.data.dtype == np.dtype((d or {}).get("dtype") or "float64")
+            and np.array_equal(T.data, A))
 
 
 def _as_form(vec, form):
@@ -443,7 +583,7 @@ def _hosvd_call(A, sub, tol, verb, ranks, rform):
     """One real call.  Returns (result, printed text, warnings, holders of the caller's arguments)."""
     import pyttb as ttb
 
-    T = _make_tensor(A)
+    T = _make_tensor(A, sub["data"])
     kw = {"verbosity": verb, "sequential": sub["seq"]}
     dimorder = sub["dimorder"]
     dobj = _as_form(dimorder, sub.get("dform", "list"))
@@ -471,6 +611,7 @@ def _run_hosvd(case, ctx):
     base["dform"] = case.get("dform", "list")
     ctx.state()
     ctx.count("hosvd:fam:" + d["fam"])
+    ctx.count("hosvd:dtype:" + d.get("dtype", "float64"))
     rankvecs = case.get("rankvecs") or []
     if rankvecs == "all":
         rankvecs = _rank_vectors(shape)
@@ -528,7 +669,7 @@ def _run_hosvd(case, ctx):
             if not _unchanged(robj, vec):
                 ctx.fail("hosvd", "operand_mutated", f"caller's ranks array {list(vec)} became {np.asarray(robj).tolist()}",
                          variant="mixed", case=sub)
-            if not np.array_equal(T.data, A):
+            if not _data_unchanged(T, A, d):
                 ctx.fail("hosvd", "operand_mutated", "data tensor changed", variant="mixed", case=sub)
             got = _inspect(ctx, "hosvd", "mixed", sub, R, A, None)
             if got is not None:
@@ -550,7 +691,7 @@ def _hosvd_one(ctx, A, sub, tol, verb, ranks, rform, variant, ref, order):
         ctx.fail("hosvd", exc_symptom(e), short_tb(e), variant=variant, case=sub)
         return None
     # inputs
-    if T.shape != shape or not np.array_equal(T.data, A):
+    if not _data_unchanged(T, A, sub["data"]):
         ctx.fail("hosvd", "operand_mutated", "data tensor changed", variant=variant, case=sub)
     if not _unchanged(dobj, sub["dimorder"]):
         ctx.fail("hosvd", "operand_mutated", f"caller's dimorder {sub['dimorder']} became {dobj!r}", variant=variant, case=sub)
@@ -646,7 +787,7 @@ def _init_objects(init, shape, rvec, order):
 def _tucker_call(A, case, rvec, order, k, st, pr):
     import pyttb as ttb
 
-    T = _make_tensor(A)
+    T = _make_tensor(A, case["data"])
     shape = A.shape
     init = case["init"]
     rank = case["rank"]
@@ -692,6 +833,7 @@ def _run_tucker(case, ctx):
 
     ctx.state()
     ctx.count("tucker:fam:" + d["fam"])
+    ctx.count("tucker:dtype:" + d.get("dtype", "float64"))
     ctx.count("tucker:init:" + variant)
     runs = {}        # (k, st, pr) -> dict(res2, fit, iters, Uinit)
     plan = []
@@ -711,7 +853,7 @@ def _run_tucker(case, ctx):
                 ctx.fail("tucker_als", exc_symptom(e), short_tb(e), variant=variant, case=sub)
                 continue
             # inputs unchanged
-            if T.shape != shape or not np.array_equal(T.data, A):
+            if not _data_unchanged(T, A, d):
                 ctx.fail("tucker_als", "operand_mutated", "data tensor changed", variant=variant, case=sub)
             if not isinstance(rank, int) and not _unchanged(robj, rank):
                 ctx.fail("tucker_als", "operand_mutated", f"caller's rank {rank} became {robj!r}", variant=variant, case=sub)
@@ -813,7 +955,7 @@ def _run_tucker(case, ctx):
                     break
         # --- nvecs start = leading mode vectors of the data (same real routine, same start vector)
         if variant == "nvecs" and first is not None and adm0:
-            T = _make_tensor(A)
+            T = _make_tensor(A, d)
             for n in order[1:]:
                 try:
                     want = T.nvecs(n, rvec[n])
